@@ -26,7 +26,10 @@ const ENTRIES: [&str; 16] = [
 ];
 
 fn kernel_accepts(n: c_int) -> bool {
-    (1..=64).contains(&n) && n != libc::SIGKILL && n != libc::SIGSTOP && n != 32 && n != 33
+    // asked of the environment itself (once, in the parent): under valgrind the highest real-time signal is not available
+    static OK: std::sync::OnceLock<Vec<bool>> = std::sync::OnceLock::new();
+    let v = OK.get_or_init(|| (0..=64).map(crate::sig::settable).collect());
+    (0..=64).contains(&n) && v[n as usize]
 }
 
 fn expected(entry: usize, n: c_int) -> Class {
@@ -174,10 +177,16 @@ fn call(e: usize, n: c_int, problems: &mut Vec<String>) -> Class {
                 problems.push(format!("a refused registration left the handed-over descriptor {} open", fd));
             }
         }
+        drop(keep);
     } else {
-        std::mem::forget(keep);
+        // an accepted registration stays alive for the rest of the (short-lived) process: parked, not leaked
+        KEPT.with(|k| k.borrow_mut().push(keep));
     }
     class
+}
+
+thread_local! {
+    static KEPT: std::cell::RefCell<Vec<Vec<Box<dyn std::any::Any>>>> = const { std::cell::RefCell::new(Vec::new()) };
 }
 
 fn child(e: usize, n: c_int, context: u32, fd: i32) -> i32 {
@@ -258,6 +267,16 @@ fn child(e: usize, n: c_int, context: u32, fd: i32) -> i32 {
 }
 
 pub fn main(args: &[String]) -> i32 {
+    let _ = kernel_accepts(1);
+    // replay of a single case in this very process: --one <entry> <number> <context>
+    if let Some(i) = args.iter().position(|a| a == "--one") {
+        let e: usize = args[i + 1].parse().unwrap_or(0);
+        let n: c_int = args[i + 2].parse().unwrap_or(0);
+        let c: u32 = args[i + 3].parse().unwrap_or(0);
+        crate::director::install();
+        crate::director::set_observer(Some(observer));
+        return child(e, n, c, 1);
+    }
     let seed = arg_u64(args, "--seed", 1);
     crate::director::install();
     crate::director::set_observer(Some(observer));
